@@ -89,8 +89,10 @@ def str_transform(it, fr, s, attr, args, kw):
     if attr in ('strip', 'lstrip', 'rstrip') and (not args or args[0] is None):
         ws = lambda c: CT.cp('space', c)
         L = s.L
-        lead = eng.fresh('lead', z3.IntSort())
-        trail = eng.fresh('trail', z3.IntSort())
+        # deterministic names: formulas over the result are memoised by its name, so every variable they mention must
+        # be determined by that name (fresh counters differ between paths)
+        lead = z3.Int(f'{attr}_lead({s.name})') if s.name else eng.fresh('lead', z3.IntSort())
+        trail = z3.Int(f'{attr}_trail({s.name})') if s.name else eng.fresh('trail', z3.IntSort())
         cons = [lead >= 0, trail >= 0, lead + trail <= s.n]
         if attr in ('strip', 'lstrip'):
             for i, c in enumerate(s.chars):
@@ -107,10 +109,17 @@ def str_transform(it, fr, s, attr, args, kw):
             cons.append(z3.Implies(lead == s.n, trail == 0))
         else:
             cons.append(trail == 0)
-        n2 = eng.fresh('strip_n', z3.IntSort())
+        n2 = z3.Int(f'{attr}_n({s.name})') if s.name else eng.fresh('strip_n', z3.IntSort())
         cons.append(n2 == s.n - lead - trail)
+        eng.add(*cons)
+        # stripping on the right only shortens the string; for a small concrete number of leading characters the result
+        # is a slice of the source's characters (no equations); only longer leading runs need the general shift encoding
+        for k in range(3):
+            if k <= L and eng.fork(lead == k):
+                return SStr(n2, s.chars[k:], f'{attr}{k}({s.name})' if s.name else '')
+        cons = []
         chars = [eng.fresh('strip_c', z3.IntSort()) for _ in range(L)]
-        for k in range(L):
+        for k in range(3, L):
             for j in range(L - k):
                 cons.append(z3.Implies(z3.And(lead == k, j < n2), CT.char_eq(chars[j], s.chars[j + k])))
         for c in chars:
